@@ -50,7 +50,7 @@ var findingFeatures = map[string][]string{
 	"range-array-not-copied":         {"array.1"},
 	"append-func-literal":            {"closure.2"},
 	"assign-index-operand-order":     {"assign.1"},
-	"labelled-break-nested-loop":     {"control.0", "control.6"},
+	"labelled-break-nested-loop":     {"control.0", "control.6", "cf.labelled-break"},
 	"deref-address-taken-pointer":    {"pointer.4"},
 	"named-result-set-after-recover": {"defer.2", "defer.3", "defer.6"},
 	"init-order-through-function":    {"initorder.0", "initorder.1", "initorder.2"},
@@ -60,6 +60,19 @@ var findingFeatures = map[string][]string{
 	"nil-func-field-not-nil":                 {"structrole.nil-func-field"},
 	"field-pointer-stale-after-whole-assign": {"structrole.field-pointer-whole-assign"},
 	"general-field-read-aliases-field":       {"structrole.general-field-read"},
+	// stream 8 (zero value on the failing path)
+	"nil-func-from-reflect-not-nil":          {"cok.func-nil"},
+	"range-assign-to-non-local":              {"cok.range-nonlocal"},
+	"tuple-assign-fields-of-captured-struct": {"cok.captured-struct-tuple"},
+	"indirect-interface-value-compare":       {"cok.iface-indirect"},
+	"complex-operand-through-pointer":        {"cok.complex-ptr"},
+	// stream 9 (control-flow family)
+	"continue-in-for-inside-range":        {"cf.continue-in-for-inside-range"},
+	"recovered-panic-in-range":            {"cf.recovered-panic-in-range"},
+	"break-in-range-inside-breakable":     {"cf.break-in-range-inside-breakable"},
+	"labelled-continue-not-implemented":   {"cf.labelled-continue"},
+	"break-in-select-never-lands":         {"cf.break-in-select"},
+	"conditionless-for-leaves-jump-label": {"cf.jump-after-conditionless-for"},
 }
 
 // ---------------------------------------------------------------- opcode-level cases
@@ -504,6 +517,18 @@ func run(c *hx.Ctx) error {
 		k := 1
 		fmt.Sscan(n, &k)
 		return structStream(c, 2*k, k, 300, 120, 80, 12)
+	}
+	if n := os.Getenv("C01_DEV_COMMAOK"); n != "" {
+		// development aid: only the comma-ok / zero-value stream, n extra random cases
+		k := 0
+		fmt.Sscan(n, &k)
+		return commaokStream(c, k, 30)
+	}
+	if n := os.Getenv("C01_DEV_CF"); n != "" {
+		// development aid: only the control-flow stream, n cases
+		k := 0
+		fmt.Sscan(n, &k)
+		return controlFlowStream(c, k, 150)
 	}
 	if n := os.Getenv("C01_DEV_PROGRAMS"); n != "" {
 		// development aid: only the whole-program stream, no shrinking
